@@ -4,6 +4,7 @@ import (
 	"fmt"
 	"sort"
 	"strings"
+	"sync"
 	"unicode/utf8"
 
 	exsrv "github.com/cybergarage/go-redis/examples/go-redisd/server"
@@ -186,6 +187,35 @@ func c17run(idx int) run.Result {
 			}
 		}
 		c17pairs(&res, p, ks, "random pattern<=12 x 60 keys")
+		if idx%50 == 7 && len(res.Violations) == 0 {
+			// patterns are compiled by many connections (and several servers of one process) at the same time: eight
+			// goroutines, released together, compile eight different patterns and match their keys
+			pats := []string{p}
+			for len(pats) < 8 {
+				pats = append(pats, string(r.From(c17ext, 1+r.Intn(12))))
+			}
+			part := make([]run.Result, len(pats))
+			start := make(chan struct{})
+			var wg sync.WaitGroup
+			for g := range pats {
+				wg.Add(1)
+				go func(g int) {
+					defer wg.Done()
+					<-start
+					for rep := 0; rep < 20 && len(part[g].Violations) == 0; rep++ {
+						c17pairs(&part[g], pats[g], ks, "8 patterns compiled and matched at the same time")
+					}
+				}(g)
+			}
+			close(start)
+			wg.Wait()
+			res.Count("patterns_compiled_concurrently", int64(len(pats)))
+			for g := range part {
+				for _, v := range part[g].Violations {
+					res.Violate(v.Sig+":concurrent", v.Clause, "while seven other patterns were being compiled: "+v.Detail, v.Case)
+				}
+			}
+		}
 		if idx%2003 == 0 {
 			res.Sample = map[string]any{"pattern": p, "kind": "random", "keys": ks[:5]}
 		}
@@ -442,7 +472,7 @@ func init() {
 			if tier == "thorough" {
 				blocks = "complete blocks: patterns <=3 x keys <=5, patterns =4 x keys <=4, patterns =5 x keys <=3 over {a,b,*,?,.,+,(,|,$}; the remaining patterns =5 x keys 4..5 block is sampled (150 keys per pattern)"
 			}
-			return "part 1: glob.Compile(p) must not fail or panic and MatchString(k) must equal a direct recursive glob matcher: " + blocks + "; plus seeded random patterns up to length 12 over that alphabet extended with ^ { } ) , space newline 0 (one in forty with a byte that is not valid UTF-8), each against 60 keys derived from the pattern or random. part 2: the bundled example store is populated through the real connection loop with all 91 keys of length <=2 (as string, hash, list and set keys) and for every pattern of length <=3 plus seeded longer ones the key sets of KEYS p, SCAN 0 MATCH p COUNT 1000 and the reference selection must be equal; for '*' and four patterns of each batch a full SCAN iteration (cursor 0, then the returned cursor, until 0 comes back) with default COUNT and COUNT 1, 3, 7 must end and select exactly those keys, and a SCAN call that continues an iteration begun with ANOTHER pattern must return only keys its own pattern selects; one batch in eight repeats the full iterations over a store of 2500 keys with COUNT from 1 to 5000. distinct_nontrivial = distinct patterns containing a wildcard or a regexp metacharacter (part 1) plus server patterns (part 2)"
+			return "part 1: glob.Compile(p) must not fail or panic and MatchString(k) must equal a direct recursive glob matcher: " + blocks + "; plus seeded random patterns up to length 12 over that alphabet extended with ^ { } ) , space newline 0 (one in forty with a byte that is not valid UTF-8), each against 60 keys derived from the pattern or random (every fiftieth together with seven other patterns compiled and matched by eight goroutines at the same time). part 2: the bundled example store is populated through the real connection loop with all 91 keys of length <=2 (as string, hash, list and set keys) and for every pattern of length <=3 plus seeded longer ones the key sets of KEYS p, SCAN 0 MATCH p COUNT 1000 and the reference selection must be equal; for '*' and four patterns of each batch a full SCAN iteration (cursor 0, then the returned cursor, until 0 comes back) with default COUNT and COUNT 1, 3, 7 must end and select exactly those keys, and a SCAN call that continues an iteration begun with ANOTHER pattern must return only keys its own pattern selects; one batch in eight repeats the full iterations over a store of 2500 keys with COUNT from 1 to 5000. distinct_nontrivial = distinct patterns containing a wildcard or a regexp metacharacter (part 1) plus server patterns (part 2)"
 		},
 		Exhaustive:  func(tier string) bool { return false },
 		Assumptions: []string{"patterns and keys are ASCII; '[', ']' and '\\' (character classes and escapes of Redis globs) are outside the statement and never generated"},
